@@ -239,6 +239,10 @@ var endings = []string{
 	// panics that surface in the dispatcher's frame after admission (the reverse-proxy branch recovers its own):
 	"panic-writing-503",       // no ready endpoint, and the client connection blows up while the dispatcher writes the 503
 	"panic-in-upgrade-hijack", // upgrade accepted by the upstream, hijacking the client connection panics
+	// unusual but legal client behaviour
+	"watch-stream",   // ?watch=true: long-running for the generic filters, streamed
+	"http10",         // raw socket, HTTP/1.0 without keep-alive
+	"upload-aborted", // raw socket, POST announcing 200000 bytes, connection closed after 1000
 }
 
 type e2eEnv struct {
@@ -350,10 +354,15 @@ func (b *batch) start(mode string) *pending { return b.startOn(mode, "pods") }
 
 // startOn sends one request for the given resource (the dispatch policies route by resource) in the background.
 func (b *batch) startOn(mode, resource string) *pending {
+	if mode == "http10" || mode == "upload-aborted" {
+		return b.startRaw(mode, resource)
+	}
 	id := b.newID()
 	method := "GET"
 	var body io.Reader
 	switch mode {
+	case "watch-stream":
+		resource, mode = resource+"?watch=true", "slow"
 	case "no-ready-endpoint", "panic-writing-503":
 		resource = "offpods"
 	case "listener-closed":
@@ -373,6 +382,47 @@ func (b *batch) startOn(mode, resource string) *pending {
 	go func() {
 		resp := b.env.gw.Do(req)
 		p.done <- outcome{id: id, status: resp.Status, err: resp.Err}
+	}()
+	return p
+}
+
+// startRaw speaks to the gateway's listener over a raw TCP connection.
+func (b *batch) startRaw(mode, resource string) *pending {
+	id := b.newID()
+	p := &pending{id: id, done: make(chan outcome, 1), cancel: func() {}}
+	go func() {
+		o := outcome{id: id}
+		defer func() { p.done <- o }()
+		c, err := net.DialTimeout("tcp", b.env.gw.Addr(), watchdog)
+		if err != nil {
+			o.err = err
+			return
+		}
+		defer c.Close()
+		_ = c.SetDeadline(time.Now().Add(watchdog))
+		hdr := fmt.Sprintf("Host: %s\r\nAuthorization: Bearer %s\r\n%s: %s\r\n", b.host, b.env.tok, bed.IDHeader, id)
+		path := "/api/v1/namespaces/default/" + resource
+		switch mode {
+		case "http10":
+			fmt.Fprintf(c, "GET %s HTTP/1.0\r\n%s%s: ok\r\n\r\n", path, hdr, modeHeader)
+		case "upload-aborted":
+			fmt.Fprintf(c, "POST %s HTTP/1.1\r\n%s%s: ok\r\nContent-Type: application/json\r\nContent-Length: 200000\r\n\r\n%s", path, hdr, modeHeader, strings.Repeat("z", 1000))
+			// let the gateway admit it and start proxying (the stub records a request when its header arrives), then hang up
+			vkit.WaitFor(50*time.Millisecond, func() bool { return b.seen(id) })
+			if tc, ok := c.(*net.TCPConn); ok {
+				_ = tc.SetLinger(0)
+			}
+			c.Close()
+			return
+		}
+		br := bufio.NewReader(c)
+		line, err := br.ReadString('\n')
+		if err != nil {
+			o.err = err
+			return
+		}
+		fmt.Sscanf(line, "HTTP/1.%d %d", new(int), &o.status)
+		_, _ = io.Copy(io.Discard, br)
 	}()
 	return p
 }
@@ -520,10 +570,11 @@ func endToEnd(r *vkit.R) {
 	defer gw.Close()
 	env := &e2eEnv{r: r, gw: gw, hc: hc, tok: gw.Tokens.Add(&user.DefaultInfo{Name: "alice"})}
 
-	nEnd := count(r.Quick(), 90, 1500, 300)
+	nEnd := count(r.Quick(), 108, 1800, 360)
 	scen := []string{"type-toggle-tokenBucket", "type-toggle-exempt", "admitted-as-tokenBucket", "delete-re-add", "resize-down", "resize-up", "noop-update",
-		"endpoint-removed", "near-collision-sibling", "schema-named-system-default"}
-	nScen := count(r.Quick(), 30, 400, 100)
+		"endpoint-removed", "near-collision-sibling", "schema-named-system-default",
+		"cluster-delete-recreate", "limit-zero", "storm"}
+	nScen := count(r.Quick(), 39, 520, 130)
 	r.Parallel(nEnd+nScen, 6, func(i int, g *vkit.Rand) {
 		b := &batch{env: env, host: fmt.Sprintf("c05e2e%d.test", i), rel: &releases{m: map[string]chan struct{}{}}}
 		b.main, b.off = bed.NewStub("main"), bed.NewStub("off")
@@ -553,6 +604,10 @@ func endToEnd(r *vkit.R) {
 				b.second.SetResponder(responder(b.rel))
 			case "schema-named-system-default":
 				b.defName = true
+			case "limit-zero":
+				b.M = 0
+			case "storm":
+				b.M = 2
 			case "near-collision-sibling":
 				nn := nearNames[round%len(nearNames)]
 				b.sibName, b.sibMax = nn.Name, 2
@@ -670,6 +725,17 @@ func endToEnd(r *vkit.R) {
 
 		if scenario == "endpoint-removed" {
 			b.endpointRemoved(g, witness)
+			return
+		}
+		switch scenario {
+		case "cluster-delete-recreate":
+			b.clusterDeleteRecreate(witness)
+			return
+		case "limit-zero":
+			b.limitZero(witness)
+			return
+		case "storm":
+			b.storm(g, witness)
 			return
 		}
 		if b.sibName != "" {
@@ -975,4 +1041,154 @@ func (b *batch) schemaNamedSystemDefault(witness func() map[string]interface{}) 
 	b.releaseAll(append(free, B))
 	r.Count("e2e_default_name_scenarios", 1)
 	r.Distinct(vkit.Hash64("e2e-defname"))
+}
+
+// clusterDeleteRecreate: the cluster object is deleted while a stream is in flight (the stream is torn down with it) and
+// created again under the same name: the new cluster starts with all its M slots and enforces M.
+func (b *batch) clusterDeleteRecreate(witness func() map[string]interface{}) {
+	r := b.env.r
+	A, admitted, ok := b.hold()
+	if !ok || !admitted {
+		r.Inconclusive("setup: first stream not admitted on a fresh limiter")
+		return
+	}
+	b.env.gw.Delete(b.host)
+	b.note("cluster object deleted with stream %s in flight", A.id)
+	if _, ok := b.finish(A); !ok {
+		r.Inconclusive("watchdog: the stream of a deleted cluster was not torn down")
+		return
+	}
+	if !b.inflightIs(0) {
+		r.Inconclusive("watchdog: handler of the torn-down stream did not return")
+		return
+	}
+	if !b.apply(cfg{Kind: kMIF, Max: b.M}, 1) {
+		return
+	}
+	if !b.env.gw.WaitReady(b.host, b.main.URL, true, watchdog) {
+		r.Inconclusive("watchdog: endpoint of the re-created cluster did not become ready")
+		return
+	}
+	b.note("cluster object created again under the same name")
+	mine, ok := b.probe(int(b.M), 0, true, "scenario=cluster-delete-recreate", witness)
+	if !ok {
+		return
+	}
+	b.releaseAll(mine)
+	r.Count("e2e_cluster_recreate_scenarios", 1)
+	r.Distinct(vkit.Hash64("e2e-recreate"))
+}
+
+// limitZero: max-in-flight 0 admits nothing; after a resize to 1 exactly one.
+func (b *batch) limitZero(witness func() map[string]interface{}) {
+	r := b.env.r
+	if _, ok := b.probe(0, 0, true, "scenario=limit-zero", witness); !ok {
+		return
+	}
+	if _, ok := b.probe(0, 0, true, "scenario=limit-zero", witness); !ok {
+		return
+	}
+	if !b.apply(cfg{Kind: kMIF, Max: 1}, 1) {
+		return
+	}
+	mine, ok := b.probe(1, 0, true, "scenario=limit-zero/resized-to-1", witness)
+	if !ok {
+		return
+	}
+	b.releaseAll(mine)
+	r.Count("e2e_limit_zero_scenarios", 1)
+	r.Distinct(vkit.Hash64("e2e-zero"))
+}
+
+// storm: 8 concurrent clients send short streams while the cluster object is updated (resizes between 1 and 2, no-op
+// updates) every ~0.5 ms; no type change, so all admissions belong to one epoch. The stub counts the requests it is serving
+// at the same instant for this host: each of them is an admitted, unfinished request, so that number can never exceed the
+// largest limit ever configured (2). Then the usual quiescence probe.
+func (b *batch) storm(g *vkit.Rand, witness func() map[string]interface{}) {
+	r := b.env.r
+	var cur, maxSeen int64
+	inner := responder(b.rel)
+	b.main.SetResponder(func(w http.ResponseWriter, req *http.Request, s *bed.Seen) {
+		n := atomic.AddInt64(&cur, 1)
+		atomicMax(&maxSeen, n)
+		defer atomic.AddInt64(&cur, -1)
+		inner(w, req, s)
+	})
+	var stop int32
+	var swg sync.WaitGroup
+	nUpd := 0
+	lim := int32(2)
+	swg.Add(1)
+	sg := g.Fork("storm")
+	go func() {
+		defer swg.Done()
+		fillerMax := int32(1)
+		for atomic.LoadInt32(&stop) == 0 {
+			time.Sleep(time.Duration(200+sg.Intn(600)) * time.Microsecond)
+			if sg.Chance(0.5) {
+				lim = 1 + (lim % 2)
+			} else {
+				fillerMax++
+			}
+			sr := b.env.gw.Apply(b.object(cfg{Kind: kMIF, Max: lim}, fillerMax))
+			if sr.Err != nil || sr.Panic != nil {
+				return
+			}
+			nUpd++
+		}
+	}()
+	var wg sync.WaitGroup
+	var admittedN, refusedN, otherN int64
+	for c := 0; c < 8; c++ {
+		wg.Add(1)
+		go func() {
+			defer wg.Done()
+			for k := 0; k < 25; k++ {
+				o, ok := b.finish(b.start("slow"))
+				switch {
+				case !ok:
+					atomic.AddInt64(&otherN, 1)
+				case o.status == 429:
+					atomic.AddInt64(&refusedN, 1)
+				case o.forwarded:
+					atomic.AddInt64(&admittedN, 1)
+				default:
+					atomic.AddInt64(&otherN, 1)
+				}
+			}
+		}()
+	}
+	wg.Wait()
+	atomic.StoreInt32(&stop, 1)
+	swg.Wait()
+	b.note("storm: %d admitted, %d refused, %d other; %d updates of the object; at most %d requests served by the upstream at one instant", admittedN, refusedN, otherN, nUpd, maxSeen)
+	r.Count("e2e_storm_admitted", int(admittedN))
+	r.Count("e2e_storm_refused", int(refusedN))
+	r.Count("e2e_storm_updates", nUpd)
+	if otherN > 0 {
+		r.Inconclusive(fmt.Sprintf("storm: %d exchanges ended neither forwarded nor 429", otherN))
+		return
+	}
+	if maxSeen > 2 {
+		b.violated = true
+		r.Violation("C05/e2e/over-admission/scenario=storm",
+			fmt.Sprintf("the upstream was serving %d requests of one max-in-flight schema at the same instant although its limit was never above 2 (8 concurrent clients, %d resizes / no-op updates meanwhile)", maxSeen, nUpd), witness())
+	}
+	if !b.inflightIs(0) {
+		r.Inconclusive("watchdog: storm requests did not drain")
+		return
+	}
+	if !b.apply(cfg{Kind: kMIF, Max: 2}, 1) {
+		return
+	}
+	mine, ok := b.probe(2, 0, true, "scenario=storm/after-drain", witness)
+	if !ok {
+		return
+	}
+	b.releaseAll(mine)
+	r.Count("e2e_storm_scenarios", 1)
+	if maxSeen >= 2 {
+		r.Count("e2e_storm_scenarios_reaching_the_limit", 1)
+	}
+	r.Distinct(vkit.Hash64("e2e-storm", fmt.Sprint(admittedN, refusedN)))
 }
